@@ -7,6 +7,7 @@ package main
 import (
 	"bytes"
 	"fmt"
+	"github.com/gardenbed/emerge/internal/ebnf/parser/spec"
 	"os"
 	"os/exec"
 	"path/filepath"
@@ -41,8 +42,29 @@ func init() {
 }
 
 type c17Item struct {
-	Kind string // spec | pattern
+	Kind string // spec | pattern | faulty (a specification whose reader fails after FailAt bytes)
 	Text string
+	// FailAt: for Kind faulty, the number of bytes delivered before the reader reports an I/O error
+	FailAt int
+}
+
+// faultyReader delivers the first n bytes of its text in small pieces and then fails with a non-EOF error.
+type faultyReader struct {
+	text string
+	n    int
+	pos  int
+}
+
+func (f *faultyReader) Read(p []byte) (int, error) {
+	if f.pos >= f.n {
+		return 0, fmt.Errorf("read fault injected after %d bytes", f.n)
+	}
+	k := copy(p, f.text[f.pos:f.n])
+	if k > 7 {
+		k = 7
+	}
+	f.pos += k
+	return k, nil
 }
 
 func c17Items(seed uint64) []c17Item {
@@ -50,20 +72,29 @@ func c17Items(seed uint64) []c17Item {
 	var out []c17Item
 	for i := 0; i < 14; i++ {
 		g := genWellFormedSpec(r, wfOpts{nNT: 1 + r.intn(3), nTok: 1 + r.intn(3), nStr: 2 + r.intn(4), nExtraRules: r.intn(3), nDirectives: r.intn(2), depth: 1 + r.intn(3), ruleHandles: true})
-		out = append(out, c17Item{"spec", canonicalText(g)})
+		out = append(out, c17Item{Kind: "spec", Text: canonicalText(g)})
 	}
 	for i := 0; i < 8; i++ {
 		g := genWellFormedSpec(r, wfOpts{nNT: 1 + r.intn(2), nTok: 1 + r.intn(3), nStr: 2 + r.intn(3), depth: 1 + r.intn(2)})
 		injectors[r.intn(len(injectors))].f(r, g, r.intn(6))
-		out = append(out, c17Item{"spec", canonicalText(g)})
+		out = append(out, c17Item{Kind: "spec", Text: canonicalText(g)})
 	}
-	out = append(out, c17Item{"spec", "grammar g; start = ( \"a\" \"b\" ) [ \"a\" \"b\" ] { \"a\" \"b\" } {{ \"a\" \"b\" }} ;\n"},
-		c17Item{"spec", "grammar g; start = ( ;\n"}, c17Item{"spec", "grammar g; start = # ;\n"},
-		c17Item{"spec", "grammar g;\nT1 = /[0-9]{4,2}(/\nT2 = /[z-a]/\nstart = T1 T2;\n"},
-		c17Item{"spec", "grammar g;\nID = /[a-z]+/\nNUM = /[0-9]+/\nstart = {ID | NUM | \"if\"};\n"})
+	out = append(out, c17Item{Kind: "spec", Text: "grammar g; start = ( \"a\" \"b\" ) [ \"a\" \"b\" ] { \"a\" \"b\" } {{ \"a\" \"b\" }} ;\n"},
+		c17Item{Kind: "spec", Text: "grammar g; start = ( ;\n"}, c17Item{Kind: "spec", Text: "grammar g; start = # ;\n"},
+		c17Item{Kind: "spec", Text: "grammar g;\nT1 = /[0-9]{4,2}(/\nT2 = /[z-a]/\nstart = T1 T2;\n"},
+		c17Item{Kind: "spec", Text: "grammar g;\nID = /[a-z]+/\nNUM = /[0-9]+/\nstart = {ID | NUM | \"if\"};\n"})
+	out = append(out,
+		c17Item{Kind: "spec", Text: "grammar p1;\nNUM = /[0-9]+/\n@left \"*\" \"/\"\n@left \"+\" \"-\"\nstart = e;\ne = e \"+\" e | e \"-\" e | e \"*\" e | e \"/\" e | NUM;\n"},
+		c17Item{Kind: "spec", Text: "grammar p2;\nNUM = /[0-9]+/\n@right \"+\" \"-\"\n@right \"*\" \"/\"\n@none \"<\"\nstart = e;\ne = e \"+\" e | e \"-\" e | e \"*\" e | e \"/\" e | e \"<\" e | NUM;\n"},
+		c17Item{Kind: "spec", Text: "grammar p3;\nID = /[a-z]+/\n@none \"=\"\n@right <e = \"!\" e>\n@left \"&\"\nstart = e;\ne = e \"=\" e | e \"&\" e | \"!\" e | ID;\n"})
+	// specifications whose source fails part-way (the text read so far must not leak into the next run)
+	for _, fa := range []int{1, 9, 14, 30, 45} {
+		out = append(out, c17Item{Kind: "faulty", Text: "grammar leak; // start = \"leaked\" ; LEAK = \"l\" ;\nstart = \"x\" ;\n", FailAt: fa})
+	}
+	out = append(out, c17Item{Kind: "faulty", Text: "grammar leak2;\n/* never closed", FailAt: 20}, c17Item{Kind: "faulty", Text: "grammar leak3;\nLEAKED = \"", FailAt: 24})
 	for _, p := range []string{`[a-z]+`, `(a|b)*abb`, `[0-9]+(\.[0-9]+)?`, `a{2,3}b?`, `\w+\s*`, `"[^"]*"`, `x{1}`, `[\x0100-\x0110]`, `(ab){2,}`, `.+`, `[[:alpha:]_][[:alnum:]_]*`, `a|b|c`, `a`, `(a|b)*`,
 		`[b-a]`, `[9-0]x`, `a{4,2}`, `x{3,1}y`, `[0-9]{4,2}(`, `[b-a`, `[^9-0`, `a{4,2}(`, `(x{3,1}`, `x{3,1})`, `[`, `(`, `a)`, `*a`, ``, `[z-a]{5,1}`, `[a-a]`, `\p{Nope}`} {
-		out = append(out, c17Item{"pattern", p})
+		out = append(out, c17Item{Kind: "pattern", Text: p})
 	}
 	return out
 }
@@ -73,6 +104,13 @@ func c17Process(it c17Item) string {
 	var b strings.Builder
 	pv, _ := safely(func() {
 		switch it.Kind {
+		case "faulty":
+			sp, err := spec.Parse(fileName, &faultyReader{text: it.Text, n: it.FailAt})
+			if err != nil {
+				b.WriteString("ERROR (read fault): " + err.Error() + "\n")
+			} else {
+				b.WriteString("accepted although the source failed: " + c17RenderSpec(sp))
+			}
 		case "spec":
 			o := observeSpec(it.Text)
 			if o.Panic != "" {
@@ -110,6 +148,34 @@ func c17Process(it c17Item) string {
 				e := fromAutoDFA(a.ToDFA())
 				fmt.Fprintf(&b, "ast route: states=%d finals=%d accepts(a)=%v accepts(ab)=%v\n", e.nst, len(e.final), e.matches("a"), e.matches("ab"))
 			}
+		}
+	})
+	if pv != nil {
+		return fmt.Sprintf("PANIC %v", pv)
+	}
+	return b.String()
+}
+
+// c17RenderSpec renders an accepted specification object again (everything a later stage of the tool would read from it).
+func c17RenderSpec(s *spec.Spec) string {
+	var b strings.Builder
+	pv, _ := safely(func() {
+		var o specObs
+		o.S = s
+		fillSpecObs(&o, s)
+		b.WriteString(o.render())
+		d, tm, err := s.DFA()
+		if err != nil {
+			b.WriteString("DFA error: " + err.Error() + "\n")
+		} else {
+			e := fromAutoDFA(d)
+			fmt.Fprintf(&b, "DFA states=%d finals=%d symbols=%d\n", e.nst, len(e.final), len(e.alpha))
+			var ts []string
+			for t, ss := range tm {
+				ts = append(ts, fmt.Sprintf("%s:%v", t, ss))
+			}
+			sort.Strings(ts)
+			b.WriteString(strings.Join(ts, " ") + "\n")
 		}
 	})
 	if pv != nil {
@@ -312,6 +378,43 @@ func runC17(c *ctx) {
 		}
 	}
 	check("invalid-then-valid", alt)
+	// results that are HELD while other texts are processed: a Spec handed out earlier must not change when the next
+	// specification is parsed (shared tables, recycled buffers, aliased slices)
+	{
+		var specIdx []int
+		for i, it := range items {
+			if it.Kind == "spec" && !strings.Contains(base[i], "PANIC") {
+				specIdx = append(specIdx, i)
+			}
+		}
+		held := 0
+		for _, a := range specIdx {
+			oa := observeSpec(items[a].Text)
+			if oa.S == nil {
+				continue
+			}
+			first := c17RenderSpec(oa.S)
+			if first != base[a] {
+				continue // already reported by the histories above
+			}
+			for k, b := range specIdx {
+				if c.quick() && (a+k)%3 != 0 {
+					continue
+				}
+				c.eval()
+				_ = c17Process(items[b])
+				again := c17RenderSpec(oa.S)
+				held++
+				c.nontrivial(fmt.Sprintf("held/%d/%d", a, b))
+				if again != first {
+					c.violate(violation{Case: "held-result", Input: map[string]any{"held": items[a].Text, "processed_meanwhile": items[b].Text},
+						Observed: "the specification object obtained earlier now renders as: " + firstDiffLine(again, first), Expected: "unchanged: " + firstLines(first, 6)})
+					return
+				}
+			}
+		}
+		c.count("held_results_re_read_after_another_text_was_processed", int64(held))
+	}
 	c.sample(map[string]any{"items": len(items), "failing_items": len(bad), "example_item": items[0].Text, "example_baseline": firstLines(base[0], 4)})
 
 	// (b) concurrent, under the race detector
